@@ -791,10 +791,15 @@ class Symex:
                 if isinstance(v, T):
                     return t_not(v)
                 return not self.truth(v, n.operand)
+            if isinstance(v, Obj) and callable(v.attrs.get("$binop")) and isinstance(n.op, ast.USub):
+                return self.binop(ast.Mult(), -1, v, n)     # rule-defined arithmetic: -x = (-1) * x
             if isinstance(v, Obj):
                 v = v.term
             if isinstance(n.op, ast.USub):
-                return t_neg(v) if isinstance(v, T) else -v
+                if isinstance(v, T):
+                    r = t_neg(v)
+                    return self.normalize(r) if self.normalize is not None and isinstance(r, T) else r
+                return -v
             if isinstance(n.op, ast.UAdd):
                 return v
             self.unsupported(n)
